@@ -398,7 +398,10 @@ func (hs *clientHandshakeStateTLS13) processHelloRetryRequest() error {
 			for _, ext := range hs.uconn.Extensions {
 				// new ks seems to be generated either way
 				if ks, ok := ext.(*KeyShareExtension); ok {
-					ks.KeyShares = keyShares(hs.hello.keyShares).ToPublic()
+					// hello is the ClientHello updated above: the inner hello when ECH
+					// was accepted in the HelloRetryRequest, hs.hello otherwise. With
+					// ECH hs.hello.keyShares still holds the first flight's shares here.
+					ks.KeyShares = keyShares(hello.keyShares).ToPublic()
 					keyShareExtFound = true
 				}
 			}
